@@ -1,10 +1,13 @@
 (* C11 - Moves transfer everything; the source stays usable; dependants follow.
    Proved (signal layer): a move touches no Impl, the destination holds the source's Impl afterwards and the source none,
-   belongsTo follows, move assignment is disconnectAll of the destination followed by the move.  The property-layer
-   moves (value, observers, binding, retargeting of reading nodes, invalidation of readers of the overwritten
-   destination) are part of coq/PropDefs.v and are tied by correspondence; their consequences are checked by
-   PropCheck.check_c02 / check_links on every reached world (tests).  PARTIAL, see DESIGN.md 6/C11. *)
+   belongsTo follows, move assignment is disconnectAll of the destination followed by the move.
+   Proved (property layer, coq/PropLinkMove.v): move construction and move assignment of properties keep the link invariant: after
+   the move every expression leaf that read the source reads the destination and is subscribed to the destination's signals, the
+   readers of the overwritten destination refer to nothing, the moved binding updates the destination, the overwritten binding is
+   gone with all its subscriptions.  Values seen by observers and the order of notifications are tied by correspondence and by
+   PropCheck.check_c02 on every reached world (tests).  See DESIGN.md 6/C11. *)
 From KDB Require Import Util GenIdx GenIdxProofs SigDefs SigInv SigTheorems SigEmit SigDisc.
+From KDB Require PropDefs PropFlags PropLink PropLinkTheorems PropLinkMove.
 
 Theorem C11_signal_move_transfers :
   forall pf R w src dst x, lookup (w_sigs w) src = Some x -> src <> dst ->
@@ -49,4 +52,39 @@ Example C11_example :
   map (fun e => match e with EvBool b => Some b | _ => None end)
       (filter (fun e => match e with EvBool _ => true | _ => false end) (w_trace w))
   = [Some true; Some false; Some true; Some false; Some true; Some false].
+Proof. vm_compute. reflexivity. Qed.
+
+(* ---- property layer: the link invariant across both moves (and, by C10_links_hold_in_every_legal_history, across every history) ---- *)
+Theorem C11_property_move_construction_keeps_links :
+  forall fn rtl fuel w src dst w' e,
+    PropLink.pinv w -> PropFlags.NOEMIT w -> PropDefs.step1 fn rtl fuel w (PropDefs.PMoveCtor src dst) = (w', e) -> PropLink.okx e -> PropLink.pinv w'.
+Proof. exact PropLinkMove.movector_pinv. Qed.
+Print Assumptions C11_property_move_construction_keeps_links.
+
+Theorem C11_property_move_assignment_keeps_links :
+  forall fn rtl fuel w dst src w' e,
+    PropLink.pinv w -> PropFlags.NOEMIT w -> PropDefs.step1 fn rtl fuel w (PropDefs.PMoveAssign dst src) = (w', e) -> PropLink.okx e -> PropLink.pinv w'.
+Proof. exact PropLinkMove.moveassign_pinv. Qed.
+Print Assumptions C11_property_move_assignment_keeps_links.
+
+(* no operation leaves a signal marked as emitting (needed above: a move emits the private moved signals) *)
+Theorem C11_no_signal_left_emitting :
+  forall fn rtl fuel w o, PropFlags.NOEMIT w -> PropFlags.NOEMIT (PropDefs.step fn rtl fuel w o).
+Proof. exact PropFlags.step_noemit. Qed.
+Print Assumptions C11_no_signal_left_emitting.
+
+(* non-vacuity: an input is move-constructed away and then move-assigned over another input of the same binding; legal, invariant
+   holds, the binding follows (value 3+3 after the write to the final location), the overwritten input's reader reports
+   PropertyDestroyedError only if it is still read: here both leaves end up reading property 5 *)
+Example C11_property_example :
+  let fn := fun (f : nat) (l : list Z) => Some (fold_right Z.add 0%Z l) in
+  let ops := [PropDefs.PNew 0 1%Z; PropDefs.PNew 1 2%Z;
+              PropDefs.PBind 2 (PropDefs.EOp2 0 (PropDefs.EProp 0) (PropDefs.EProp 0)) PropDefs.MImmediate;
+              PropDefs.PMoveCtor 0 5; PropDefs.PSet 5 3%Z PropDefs.WSet; PropDefs.PGet 2;
+              PropDefs.PMoveCtor 2 6; PropDefs.PSet 5 4%Z PropDefs.WSet; PropDefs.PGet 6;
+              PropDefs.PMoveAssign 1 5; PropDefs.PSet 1 10%Z PropDefs.WSet; PropDefs.PGet 6] in
+  (PropLinkTheorems.run_okb fn true 6 PropDefs.world0 ops, forallb (fun b => b) (PropLink.pinv_b (PropDefs.run fn true 6 ops)),
+   map (fun e => match e with PropDefs.EvVal v => v | _ => None end)
+       (filter (fun e => match e with PropDefs.EvVal _ => true | _ => false end) (PropDefs.w_trace (PropDefs.run fn true 6 ops))))
+  = (true, true, [Some 20%Z; Some 8%Z; Some 6%Z]).
 Proof. vm_compute. reflexivity. Qed.
